@@ -1046,26 +1046,13 @@ def _find_self(
     param_names: List[str], args: Tuple[Any, ...], kwargs: Dict[str, Any]
 ) -> Any:
     """Find the instance of ``self`` in the arguments."""
-    instance_i = None
-    try:
-        instance_i = param_names.index("self")
-    except ValueError:
-        pass
+    # The first parameter of a method denotes the instance whatever its name is
+    # (*e.g.*, ``def some_method(this, x)``, ``def some_method(*args)`` or ``def some_method(this, self)``).
+    if len(args) > 0:
+        return args[0]
 
-    if instance_i is not None and instance_i < len(args):
-        return args[instance_i]
-
-    if "self" in kwargs:
-        return kwargs["self"]
-
-    # The first parameter of a method denotes the instance even if it is not named ``self``
-    # (*e.g.*, ``def some_method(this, x)`` or ``def some_method(*args)``).
-    if instance_i is None:
-        if len(args) > 0:
-            return args[0]
-
-        if len(param_names) > 0 and param_names[0] in kwargs:
-            return kwargs[param_names[0]]
+    if len(param_names) > 0 and param_names[0] in kwargs:
+        return kwargs[param_names[0]]
 
     return kwargs["self"]
 
